@@ -1,6 +1,6 @@
 (* Completeness of assign_fields for flat bit fields, and the refutations of the general clause. *)
 From Coq Require Import ZArith List Bool Lia.
-Require Import Rig.Model.Base Rig.Model.BitField Rig.Spec.BitField.
+Require Import Rig.Generated.GenBitField Rig.Model.Base Rig.Model.BitField Rig.Spec.BitField.
 Require Import Rig.Proofs.BitFieldBits Rig.Proofs.BitFieldTree Rig.Proofs.BitFieldAssign
                Rig.Proofs.BitFieldAdd.
 Import ListNotations.
@@ -103,7 +103,7 @@ Lemma assign_complete_flat st fs :
   widths_fit (s_len st) (s_tree st) (s_store st) ->
   exists st', assign_fields st = (st', None).
 Proof.
-  intros [W [HD [HR HM]]] Ht HU HW. unfold assign_fields, assign_fields_gen. rewrite Ht in *.
+  intros [W [HD [HR HM]]] Ht HU HW. unfold assign_fields, gen_scan_orig, assign_fields_gen. rewrite Ht in *.
   assert (Hent : forall i f, In (i, f) fs -> In ([], (i, f)) (entries (Node fs []))).
   { intros i f Hin. unfold entries. simpl. rewrite app_nil_r. apply in_map_iff. exists (i, f). auto. }
   assert (Hall : forall i f, In (i, f) fs -> In (i, f) (all_fields (Node fs []))).
